@@ -13,6 +13,15 @@ use std::cell::Cell;
 thread_local! {
     static ARMED: Cell<bool> = Cell::new(false);
     static SWITCHES: Cell<usize> = Cell::new(0);
+    static INTERFERE: Cell<Option<fn(&mut Execution)>> = Cell::new(None);
+}
+
+/// What the rest of the program does while the acting thread is switched out:
+/// run at the context switch, with the execution accessible.  The harness uses
+/// it to model "another thread touched the object, then we were scheduled
+/// again" for operations that are pre-empted at their scheduling point.
+pub(crate) fn set_interference(f: Option<fn(&mut Execution)>) {
+    INTERFERE.with(|c| c.set(f));
 }
 
 /// Called first thing by `Scheduler::switch()` under cfg(loom_verif).
@@ -20,6 +29,9 @@ thread_local! {
 pub(crate) fn on_switch() -> bool {
     if ARMED.with(|a| a.get()) {
         SWITCHES.with(|s| s.set(s.get() + 1));
+        if let Some(f) = INTERFERE.with(|c| c.get()) {
+            Scheduler::with_execution(f);
+        }
         true
     } else {
         false
